@@ -306,7 +306,21 @@ func (s *Solver) readLine() (string, error) {
 }
 
 // Check runs check-sat. Any "(error" output makes the query inconclusive (Unknown).
+// Check decides the current assertion stack. An `unknown` without a solver error (a
+// timeout: the limit is wall-clock, so a loaded machine can turn a decidable query into
+// one) is retried once with three times the limit before it is reported.
 func (s *Solver) Check() (Result, error) {
+	r, err := s.checkOnce()
+	if r == Unknown && err == nil && s.Name != "cvc5" {
+		s.send(fmt.Sprintf("(set-option :timeout %d)", 3*s.timeoutMs))
+		s.ByResult[Unknown]--
+		r, err = s.checkOnce()
+		s.send(fmt.Sprintf("(set-option :timeout %d)", s.timeoutMs))
+	}
+	return r, err
+}
+
+func (s *Solver) checkOnce() (Result, error) {
 	s.send("(check-sat)")
 	s.send(`(echo "<<done>>")`)
 	if err := s.in.Flush(); err != nil {
